@@ -114,19 +114,18 @@ theorem sendLoop_stream (hdr mtu magic sex : Nat) (hm : hdr < mtu) : ∀ (fuel i
 
 /-! ### well-formed fragments and the parser -/
 
-/-- header words fit 32 bits, the data are `chunk` bytes, and the receiver's header test passes -/
+/-- header words fit 32 bits, the data are `chunk` bytes, and the receiver listens (magic, exclusion id) -/
 def FragWF (c : RxCfg) (f : Frag) : Prop :=
   f.magic < W32 ∧ f.sex < W32 ∧ f.id < W32 ∧ f.off < W32 ∧ f.chunk < W32 ∧ f.total < W32 ∧
-  f.data.length = f.chunk ∧ hdrOk c f.magic f.sex f.total = true
+  f.data.length = f.chunk ∧ hdrOk c f.magic f.sex = true
 
 theorem stream_wf (c : RxCfg) (magic sex : Nat) (hmg : magic < W32) (hsx : sex < W32)
     (hmagic : c.magic = magic) (hsex : c.sex = 0 ∨ c.sex ≠ sex) :
     ∀ {id off : Nat} {q : List Bytes} {fs : List Frag}, Stream magic sex id off q fs → id < W32 →
-    (∀ m, m ∈ q → m.length < W32 ∧ m.length ≤ c.maxIn) → ∀ f, f ∈ fs → FragWF c f := by
+    (∀ m, m ∈ q → m.length < W32) → ∀ f, f ∈ fs → FragWF c f := by
   intro id off q fs hst
-  have hok : ∀ total, total ≤ c.maxIn → hdrOk c magic sex total = true := by
-    intro total ht
-    simp only [hdrOk, hmagic, decide_true, Bool.true_and, Bool.and_eq_true, decide_eq_true_eq, Bool.or_eq_true, ht, and_true]
+  have hok : hdrOk c magic sex = true := by
+    simp only [hdrOk, hmagic, decide_true, Bool.true_and, Bool.or_eq_true, decide_eq_true_eq]
     rcases hsex with h | h
     · left; exact h
     · right; simpa using h
@@ -137,14 +136,14 @@ theorem stream_wf (c : RxCfg) (magic sex : Nat) (hmg : magic < W32) (hsx : sex <
     have hm := hq m List.mem_cons_self
     rcases List.mem_cons.mp hf with hf | hf
     · subst hf
-      refine ⟨hmg, hsx, hid, ?_, ?_, hm.1, length_take_drop _ _ _ (by omega), hok _ hm.2⟩ <;> simp only [fragOf] <;> omega
+      refine ⟨hmg, hsx, hid, ?_, ?_, hm, length_take_drop _ _ _ (by omega), hok⟩ <;> simp only [fragOf] <;> omega
     · exact ih (nextId_lt id) (fun x hx => hq x (List.mem_cons_of_mem _ hx)) f hf
   | @part id off n m q fs h hn hrest ih =>
     intro hid hq f hf
     have hm := hq m List.mem_cons_self
     rcases List.mem_cons.mp hf with hf | hf
     · subst hf
-      refine ⟨hmg, hsx, hid, ?_, ?_, hm.1, length_take_drop _ _ _ (by omega), hok _ hm.2⟩ <;> simp only [fragOf] <;> omega
+      refine ⟨hmg, hsx, hid, ?_, ?_, hm, length_take_drop _ _ _ (by omega), hok⟩ <;> simp only [fragOf] <;> omega
     · exact ih hid hq f hf
 
 theorem encPacket_length_ge : ∀ (fs : List Frag), fs.length ≤ (encPacket fs).length
@@ -154,9 +153,10 @@ theorem encPacket_length_ge : ∀ (fs : List Frag), fs.length ≤ (encPacket fs)
     simp only [encPacket, List.length_cons, List.length_append, encFrag, le32_length]
     omega
 
-/-- the receiver's fragment loop reads back exactly the fragments a packet was made of -/
+/-- the receiver's fragment loop reads back exactly the fragments a packet was made of, minus those of
+    Messages over its size limit (which it skips) -/
 theorem parse_enc (c : RxCfg) : ∀ (fs : List Frag) (fuel : Nat), (∀ f, f ∈ fs → FragWF c f) → fs.length < fuel →
-    parseFrags c fuel (encPacket fs) = fs
+    parseFrags c fuel (encPacket fs) = fs.filter (fun f => decide (f.total ≤ c.maxIn))
   | [], fuel, _, hf => by
     cases fuel with
     | zero => omega
@@ -173,9 +173,15 @@ theorem parse_enc (c : RxCfg) : ∀ (fs : List Frag) (fuel : Nat), (∀ f, f ∈
       have hdrop : (f.data ++ encPacket r).drop f.chunk = encPacket r := List.drop_left' h7
       simp only [parseFrags, encPacket, encFrag, List.append_assoc, rd32_le32 _ _ h1, rd32_le32 _ _ h2, rd32_le32 _ _ h3,
         rd32_le32 _ _ h4, rd32_le32 _ _ h5, rd32_le32 _ _ h6, h8, hle, decide_true, Bool.and_self, if_true, htake, hdrop, ih]
+      by_cases hfit : f.total ≤ c.maxIn
+      · have : ¬ f.total > c.maxIn := by omega
+        rw [if_neg this, filt_frag_keep c.maxIn f r hfit]
+      · have : f.total > c.maxIn := by omega
+        rw [if_pos this, filt_frag_drop c.maxIn f r hfit]
 
 theorem accepted_enc (hdr : Nat) (c : RxCfg) (fs : List Frag) (hwf : ∀ f, f ∈ fs → FragWF c f)
-    (hfit : (encPacket fs).length ≤ effMtu hdr c.mtu) : accepted hdr c (encPacket fs) = fs := by
+    (hfit : (encPacket fs).length ≤ effMtu hdr c.mtu) :
+    accepted hdr c (encPacket fs) = fs.filter (fun f => decide (f.total ≤ c.maxIn)) := by
   have : (encPacket fs).take (effMtu hdr c.mtu) = encPacket fs := List.take_of_length_le hfit
   simp only [accepted, this]
   exact parse_enc c fs _ hwf (by have := encPacket_length_ge fs; omega)
@@ -200,16 +206,24 @@ theorem rxFrags_append (c : RxCfg) (src : Nat) : ∀ (a b : List Frag) (t : Tabl
     rw [rxFrags_append c src a b]
     cases (rxFrag c t src f).2 <;> simp
 
-theorem rxAll_packets (hdr : Nat) (c : RxCfg) (hmisc : c.misc = false) (src : Nat) : ∀ (pkts : List (List Frag)) (t : Table),
-    (∀ p, p ∈ pkts → accepted hdr c (encPacket p) = p) →
+theorem rxAll_packets (hdr : Nat) (c : RxCfg) (hmisc : c.misc = false) (src : Nat) (g : List Frag → List Frag) :
+    ∀ (pkts : List (List Frag)) (t : Table),
+    (∀ p, p ∈ pkts → accepted hdr c (encPacket p) = g p) →
     rxAll hdr c t (pkts.map (fun p => (src, encPacket p))) =
-      ((rxFrags c src t pkts.flatten).1, (rxFrags c src t pkts.flatten).2.map (fun b => (src, b)))
+      ((rxFrags c src t (pkts.map g).flatten).1, (rxFrags c src t (pkts.map g).flatten).2.map (fun b => (src, b)))
   | [], t, _ => by simp [rxAll, rxFrags]
   | p :: ps, t, h => by
     simp only [List.map_cons, rxAll, List.flatten_cons]
     rw [rxPacket_eq hdr c hmisc, h p List.mem_cons_self, rxFrags_append,
-      rxAll_packets hdr c hmisc src ps _ (fun q hq => h q (List.mem_cons_of_mem _ hq))]
+      rxAll_packets hdr c hmisc src g ps _ (fun q hq => h q (List.mem_cons_of_mem _ hq))]
     simp
+
+theorem flatten_map_filter (pr : Frag → Bool) : ∀ (pkts : List (List Frag)),
+    (pkts.map (fun p => p.filter pr)).flatten = pkts.flatten.filter pr
+  | [] => rfl
+  | p :: ps => by
+    simp only [List.map_cons, List.flatten_cons, List.filter_append]
+    rw [flatten_map_filter pr ps]
 
 theorem effMtu_gt (hdr mtu : Nat) : hdr < effMtu hdr mtu := by
   simp only [effMtu]; omega
